@@ -448,6 +448,14 @@ func manyFresh(n int) []*Term {
 	return ts
 }
 
+func taggedFresh(tag string, n int) []*Term {
+	ts := manyFresh(n)
+	if n > 0 {
+		ts[0] = fresh(tag + ":")
+	}
+	return ts
+}
+
 func (a *Analysis) extID(f *types.Func) string {
 	sig := f.Type().(*types.Signature)
 	if r := sig.Recv(); r != nil {
@@ -497,7 +505,11 @@ func (w *Walker) extResult(id string, f *types.Func, recv *Term, args []*Term, n
 		t := mkTerm(KCall, "slices.Index", args...)
 		return []*Term{t}
 	}
-	return manyFresh(nres)
+	if (id == "ext:time.Time.UnixNano" || id == "ext:time.Time.Sub" || id == "ext:time.Time.IsZero") && recv != nil {
+		t := mkTerm(KCall, strings.TrimPrefix(id, "ext:"), append([]*Term{recv}, args...)...)
+		return append([]*Term{t}, manyFresh(nres-1)...)
+	}
+	return taggedFresh(id, nres)
 }
 
 func (w *Walker) cbResult(id string, call *ast.CallExpr, args []*Term, nres int) []*Term {
@@ -583,7 +595,7 @@ func (w *Walker) builtin(name string, call *ast.CallExpr, st *State) []callRes {
 		case "clear":
 			if len(c.args) == 1 {
 				for _, l := range c.args[0].Reads {
-					w.write(l, KillAny, nil, nil, c.st, call)
+					w.write(l, KillAny, nil, constTerm("cleared"), c.st, call)
 				}
 			}
 			t = fresh("void")
@@ -686,7 +698,7 @@ func (w *Walker) callInternal(call *ast.CallExpr, fn *FuncInfo, st *State, nres 
 					t.NonNil = true
 					ts = append(ts, t)
 				default:
-					ts = append(ts, fresh("ret"))
+					ts = append(ts, fresh("ret:"+fn.Name+":"))
 				}
 			}
 			if len(ts) > 0 && cl.RetField != "" {
